@@ -19,7 +19,7 @@ RULE = ('signal names from a generator (identifiers, long names, unicode, spaces
         'remembered from an earlier call). distinct_nontrivial = distinct '
         '(name class, payload shape signature) pairs')
 CASES = {'quick': 60000, 'thorough': 5000000}
-BUDGET = {'quick': 30, 'thorough': 300}
+BUDGET = {'quick': 150, 'thorough': 300}
 REQUIRE = {'round_trips': 20000, 'new_names_via_loads': 500, 'nested_payloads': 5000, 'second_decodes_after_in_place_mutation': 2000,
            'look_alike_round_trips': 2000, 'second_dumps_after_in_place_mutation': 1000}
 ASSUME = ['payloads are JSON-representable: None, bool, finite numbers, str, list, dict with str keys']
